@@ -484,6 +484,33 @@ def Tbl.handleDescRange (ws : List String) : Option String := do
   let d ← parseDesc ws
   some (verdict (descInRange d))
 
+/-- Range check of each of the three descriptions (analysis `A`, export model `M`, source text `S`),
+    then pairwise comparison; the first problem, tagged with its origin. -/
+def Tbl.threeCheck (a m s : ParserDesc) : Option String :=
+  let tag (t : String) (r : Option String) : Option String := r.map fun x => t ++ ":" ++ x
+  firstSome [
+    tag "range(A)" (descInRange a), tag "range(M)" (descInRange m), tag "range(S)" (descInRange s),
+    tag "A/S" (descAgree a s), tag "A/M" (descAgree a m), tag "M/S" (descAgree m s)]
+
+-- @handler d3 Tbl.handleD3
+/-- Differential slot of a `d3` case: the model reads the three descriptions; the harness answers
+    `same` when it reproduces them from the grammar text. -/
+def Tbl.handleD3 : List String → Option String
+  | _ :: _ :: ws => do
+    let (_, rest) ← takeDescs 3 ws
+    if rest.isEmpty then some "same" else none
+  | _ => none
+
+-- @handler d3-check Tbl.handleD3Check
+/-- `d3-check <par> <k> <A> <M> <S>` → `ok` | `fail <origin>:<first problem>`. -/
+def Tbl.handleD3Check : List String → Option String
+  | _ :: _ :: ws => do
+    let (ds, rest) ← takeDescs 3 ws
+    match ds, rest with
+    | [a, m, s], [] => some (verdict (Tbl.threeCheck a m s))
+    | _, _ => none
+  | _ => none
+
 -- @handler termidx Tbl.handleTermIdx
 /-- `termidx <occs> <queries>` (both `;`-separated occurrences) →
     `<ordered terminals as text/kind/states …;…> <index per query, `x` for a failing unwrap>`. -/
